@@ -300,8 +300,88 @@ def judge_create(c, out):
     return c.fresh == 'true', True
 
 
+def s_edit(v):
+    """a repository created earlier whose package Manifest is compressed on disk and holds no
+    EBUILD entry yet; an ebuild (and optionally other files) appears; update with a profile"""
+    c = Ctx()
+    c.lite = True
+    fs = c.fs = ModelFS(walk_fuel=200)
+    c.profile = PROFILES[v.choice('profile', 3)]
+    fs.add_file('cat/pkg/metadata.xml', size=2, digest='m')
+    pkg = [mk('DATA' if c.profile != 'old-ebuild' else 'MISC', 'metadata.xml', 2,
+              MD5=digest_for('MD5', 'm'))]
+    if v.bool('new_ebuild'):
+        fs.add_file('cat/pkg/x-1.ebuild', size=3, digest='e')
+    if v.bool('new_patch'):
+        fs.add_file('cat/pkg/files/p.patch', size=1, digest='p')
+    pname = ('Manifest', 'Manifest.gz')[v.choice('pkg_compressed', 2)]
+    fs.add_manifest('cat/pkg/' + pname, pkg, size=200, digest='P')
+    fs.add_manifest('cat/Manifest', [mk('MANIFEST', 'pkg/' + pname, 200,
+                                        MD5=digest_for('MD5', 'P'))], size=60, digest='C')
+    fs.add_manifest('Manifest', [mk('MANIFEST', 'cat/Manifest', 60,
+                                    MD5=digest_for('MD5', 'C'))]
+                    + [mk('IGNORE', i) for i in policy_ignores(c.profile, '')])
+    c.u_pkg = v.size('u_pkg')
+    fs.size_of = {posixpath.join(ROOT, 'cat/pkg/Manifest'): c.u_pkg}
+    c.u_meta = 0
+    c.explicit_hashes = True
+    return c
+
+
+def run_edit(c):
+    fs = c.fs
+    prof = get_profile_by_name(c.profile)
+    with fs.installed():
+        m = ManifestRecursiveLoader(posixpath.join(ROOT, 'Manifest'), profile=prof,
+                                    verify_openpgp=False, hashes=['MD5'],
+                                    compress_watermark=128)
+        m.update_entries_for_directory()
+        m.save_manifests()
+    c.fresh = tree.run_verify(fs, 'Manifest', '')
+    return 'saved'
+
+
+def judge_edit(c, out):
+    fs, prof = c.fs, c.profile
+    names = [n for n in fs.node('cat/pkg').children if n in MNAMES]
+    if len(names) != 1:
+        return False, True
+    pkg = fs.node('cat/pkg/' + names[0])
+    has_ebuild = any(e.tag == 'EBUILD' for e in pkg.entries)
+    rewritten = any(op[0] == 'write' and '/cat/pkg/' in op[1] for op in fs.log)
+    for e in pkg.entries:
+        if e.tag in ('IGNORE', 'MANIFEST'):
+            continue
+        want_tag = policy_entry_type(prof, posixpath.join('cat/pkg', e.path))
+        if e.path == 'metadata.xml':
+            continue                    # existing entries keep their type (C10)
+        if e.tag != want_tag:
+            return False, True
+    if rewritten:
+        want_c = sym.le(128, c.u_pkg)
+        if prof == 'old-ebuild' and has_ebuild:
+            want_c = False              # package Manifests stay plain for Manifest2 tools
+        if prof == 'default':
+            want_c = sym.le(128, c.u_pkg)
+        if want_c != (names[0] != 'Manifest'):
+            return False, True
+    return c.fresh == 'true', rewritten
+
+
 def conditions(tier):
     cs = []
+    for fx in partitions([('profile', range(3)), ('pkg_compressed', range(2)),
+                          ('new_ebuild', (False, True))]):
+        nm = f'edit_{PROFILES[fx["profile"]]}_c{fx["pkg_compressed"]}e{int(fx["new_ebuild"])}'
+        cs.append(make_cond(
+            nm, s_edit, run_edit, judge_edit, fx, timeout=600, group='M-edit', real=False,
+            twin=False,
+            descr='update (watermark 128) of a created repository whose package Manifest is '
+                  'plain or compressed on disk and has no EBUILD entry yet, after an ebuild '
+                  'and/or a files/ patch appeared: new entries typed by the profile, package '
+                  'Manifest compressed by the watermark except that it must be (re)written '
+                  'plain under old-ebuild once it holds an EBUILD entry; tree verifies',
+            bounds='uncompressed size of the package Manifest symbolic; patch present or not'))
     for prof in range(3):
         for depth, i1 in [(0, None), (1, None)] + [
                 (d, i) for d in (2, 3)
@@ -354,6 +434,9 @@ def conditions(tier):
                    + ('; eclass, metadata/timestamp, distfiles always present' if lite else '')))
     return cs
 
+
+# validate() compares the real implementation with the property itself
+VALIDATION_CHECKS_PROPERTY = True
 
 ASSUMPTIONS = ['the policy table is transcribed from the statement and the profile '
                'docstrings', 'Manifest serialisation replaced by entry snapshots in the '
